@@ -120,6 +120,21 @@ fn c12_dom<D: Dom>(cx: &RunCtx) {
     let k = [Kind::Value, Kind::MalformedOk, Kind::WellFormedErr, Kind::Relation];
     let d = if cx.tier == Tier::Quick { 6 } else { 7 };
     tok_run::<D>(cx, "E-TOK Σ_juxt", sigma_juxt(D::EV), d, 4, ONLY_DEFAULT, &k, Some(&c12_extra::<D>), 2400);
+    // E-COMP with juxtaposition as the joiner: A B, A(B), (A)B, and juxtapositions next to ^ and !
+    let j = |a: &str, b: &str, c: &str| (a.to_string(), b.to_string(), c.to_string());
+    let mut joiners = vec![j("", "", ""), j("", "(", ")"), j("(", ")", ""), j("(", ")(", ")"), j("", "^", ""), j("", "*", ""), j("", "/", "")];
+    if D::EV.has_factorial() {
+        joiners.push(j("", "!", ""));
+        joiners.push(j("", "!(", ")"));
+    }
+    let mut a: Vec<String> = ["2", "3", "@", "+", "-", "^", "(", ")", "²", "abs("].iter().map(|s| s.to_string()).collect();
+    if D::EV.has_factorial() {
+        a.push("!".into());
+    }
+    if D::EV.has_point() {
+        a.push("0.5".into());
+    }
+    crate::checks::ecomp::<D>(cx, a, &joiners, &[Kind::Value, Kind::MalformedOk, Kind::WellFormedErr]);
 }
 
 pub fn c12(cx: &RunCtx) {
@@ -296,7 +311,7 @@ fn c13_dom<D: Dom>(cx: &RunCtx) {
     let f_quick = |c: &Ctx<D>, st: &mut Stats, rec: &Recorder| c13_extra::<D>(c, st, rec, false);
     let f_all = |c: &Ctx<D>, st: &mut Stats, rec: &Recorder| c13_extra::<D>(c, st, rec, true);
     let extra: Extra<D> = if quick { &f_quick } else { &f_all };
-    tok_run::<D>(cx, "E-TOK Σ_class + rewrites", sigma_class(D::EV), if quick { 3 } else { 4 }, 9, ONLY_DEFAULT, &k, Some(extra), 3000);
+    tok_run::<D>(cx, "E-TOK Σ_class + rewrites", sigma_class(D::EV), if quick { 4 } else { 4 }, 9, ONLY_DEFAULT, &k, Some(extra), 3000);
     tok_run::<D>(cx, "E-TOK Σ_full + rewrites", sigma_full(D::EV), if quick { 2 } else { 3 }, 9, ONLY_DEFAULT, &k, Some(extra), 3000);
     // targeted alphabet for the spelling rewrites: every construct that has a second spelling
     let mut a: Vec<String> = ["2", "3", "@", "+", "-", "*", "^", "(", ")", ",", "²", "³", "mod(", "pow("].iter().map(|s| s.to_string()).collect();
